@@ -304,7 +304,7 @@ def run_batch(check, tier, seed, runs=None, workers=None, verbose=True):
         print(line)
     os.makedirs(os.path.join(VERIF, "replays"), exist_ok=True)
     for kind, sig, index, plan, vj in new[:6]:
-        small, tries = shrink_plan(check, plan, (kind, sig))
+        small, tries = shrink_plan(check, plan, (kind, sig), *getattr(check, "shrink_budget", (300, 30.0)))
         out, cls = execute_classes(check, small)
         vv = [v for v in out.violations if v.cls() == (kind, sig)]
         if not vv:  # shrinking must preserve the class; fall back to the original
